@@ -232,11 +232,8 @@ func runC33Post(c *Ctx) {
 	if auxWriter {
 		nw, gap := ch.Range(1, 6, "aux-writes"), ch.Range(0, 3, "aux-gap")
 		sp.AuxClient = func(o *ConnOutcome) {
-			for !o.CDone {
-				if o.CErr != nil || o.BuildErr != nil || o.CPanic != nil {
-					return
-				}
-				simrt.WaitSteps(2)
+			if !simrt.Poll(func() bool { return o.CDone || o.CErr != nil || o.BuildErr != nil || o.CPanic != nil }, 4000) || !o.CDone {
+				return
 			}
 			for i := 0; i < nw; i++ {
 				if _, err := o.U.Write([]byte("from-the-writer-task")); err != nil {
